@@ -245,7 +245,8 @@ func runWorker(bin, prop, tier string, seed uint64, from, stride int64, deadline
 		if err := cmd.Start(); err != nil {
 			return err
 		}
-		killer := time.AfterFunc(left+90*time.Second, func() { cmd.Process.Kill() })
+		killed := false
+		killer := time.AfterFunc(left+90*time.Second, func() { killed = true; cmd.Process.Kill() })
 		sc := bufio.NewScanner(stdout)
 		sc.Buffer(make([]byte, 1<<20), 64<<20)
 		n := int64(0)
@@ -281,6 +282,14 @@ func runWorker(bin, prop, tier string, seed uint64, from, stride int64, deadline
 			done += n + 1
 			next = idx + stride
 			continue
+		}
+		if killed {
+			// a run still in progress long after the budget was stopped by the watchdog: its (partial)
+			// output is discarded, everything completed before counts
+			a.mu.Lock()
+			a.notes["worker-stopped-by-watchdog-after-budget"]++
+			a.mu.Unlock()
+			return nil
 		}
 		if badLine != nil {
 			return badLine
